@@ -126,7 +126,12 @@ func main() {
 	for i := 0; i < n; i++ {
 		set := gen.Generate(f.Rand(i), cfg)
 		names, texts := set.Files()
-		cases = append(cases, rescorr.Case{Names: names, Texts: texts})
+		c := rescorr.Case{Names: names, Texts: texts}
+		if i%4 == 0 {
+			// every fourth set goes to the model as raw text (Lean parser + AST builder + resolver)
+			c.Extra = map[string]string{"text": "1"}
+		}
+		cases = append(cases, c)
 	}
 	outs := rescorr.RunAll(cases, f)
 	distinct := lib.NewDistinct()
@@ -147,6 +152,15 @@ func main() {
 		if len(o.Go.Findings) > 0 {
 			res.AddDisagreement(lib.Disagreement{Kind: "spec", Input: o.Case, Go: o.Go.Findings, SpecVerdict: "violates",
 				What: "structural oracle on the Go trees: " + o.Go.Findings[0], Replay: o.Case})
+		}
+		for _, lr := range o.LoadResults {
+			if lr != "accepted" {
+				res.AddDisagreement(lib.Disagreement{Kind: "correspondence", Input: o.Case, Go: "accepted", Model: o.LoadResults,
+					What: "Modules.Parse accepted a text that the Lean front end (parser + AST builder + registry) rejects: " + lr, Replay: o.Case})
+			}
+		}
+		if len(o.LoadResults) > 0 {
+			res.Count("sets_sent_as_raw_text", 1)
 		}
 		g := lib.Project(o.Go.Dump, keys, true)
 		m := lib.Project(o.Model, keys, true)
